@@ -1,8 +1,8 @@
 (* Extract/C11.v — extraction of the C11 model for the correspondence driver.
    Directives in force: only those of the two standard files required here. *)
 From Coq Require Extraction ExtrOcamlBasic ExtrOcamlZBigInt.
-From Verif Require Import Lib.Bytes Crypto.Sha256 Model.Base58 Model.Bech32.
+From Verif Require Import Lib.Bytes Crypto.Sha256 Model.Base58 Model.Bech32 Proofs.Base58Fixed.
 Extraction Language OCaml.
 Extraction "../ocaml/c11_model.ml" bz zb sha256d b58_enc spec_b58_dec lib_b58_dec lib_addr_b58_gen
   lib_addr_b58_enc lib_deserialize_gen lib_addr_to_pkh_gen lib_bech32_dec lib_bech32_raw lib_bech32_enc
-  spec_bech32_enc lib_bech32_checksum convertbits polymod.
+  spec_bech32_enc lib_bech32_checksum convertbits polymod lib_fixed_check.
